@@ -380,6 +380,9 @@ def execute(case):
         snap[("metadata", "T.sel")] = (tuple(tgt.param.sel.objects), tuple(T.param.sel.objects))
         snap[("refs",)] = tuple(sorted((n, id(r)) for n, r in tgt._param__private.refs.items()))
         snap[("async_refs",)] = tuple(sorted(tgt._param__private.async_refs))
+        # which parameters the target holds a value of its own for (the others show, and follow, the class default)
+        snap[("value", "T", "<names with a value of their own>")] = tuple(sorted(
+            n_ for n_ in getattr(tgt._param__private, "values", {}) if n_ not in ("pq", "pc", "pr", "px")))   # (a Composite is a view)
         return snap
 
     kw2 = {}
